@@ -317,6 +317,18 @@ impl Exec {
         // a final no-op event carrying the `final=1` mark
         let mut l = self.exec(&Ev::Remove { k: 9999 });
         l.push_str(" final=1");
+        // every future has resolved or was dropped; drop the entries the callers received: nothing refers to the
+        // cached records any more, so a fresh lookup must hold the only reference (C18: nothing leaks)
+        self.held.clear();
+        self.callers.clear();
+        self.settle();
+        let mut refs = vec![];
+        for k in 0..self.keys {
+            if let Some(e) = self.cache.get(&k) {
+                refs.push(format!("{k}:{}", e.refs()));
+            }
+        }
+        l.push_str(&format!(" refs={}", if refs.is_empty() { "-".to_string() } else { refs.join(";") }));
         out.push_str(&l);
         out.push('\n');
     }
